@@ -431,6 +431,13 @@ class Interp(ExprMixin):
                 and all(isinstance(a, Const) and isinstance(a.value, str) for a in args):
             return Const(getattr(recv.value, name)(*[a.value for a in args]))
         ra = recv.single_atom() if isinstance(recv, Poly) else None
+        if ra is not None and ra[0] == 'app' and ra[1] == 'dict' and name == 'get' and args and isinstance(args[0], (Const, Poly)):
+            if isinstance(args[0], Const) or args[0].const_value() is not None:
+                for pr in ra[2]:
+                    if isinstance(pr, Tup) and pr.items[0] == args[0]:
+                        return pr.items[1]
+                if all(isinstance(pr, Tup) and isinstance(pr.items[0], (Const, Poly)) for pr in ra[2]):
+                    return args[1] if len(args) > 1 else NONE
         if ra is not None and ra[0] == 'app' and ra[1] == 'kwargs' and name in ('pop', 'get') and args:
             for pr in ra[2]:
                 if isinstance(pr, Tup) and pr.items[0] == args[0]:
